@@ -47,3 +47,9 @@ class World:
     def where(self, fn, line=None):
         sp = fn["span"]
         return f"{sp[0]}:{line if line else sp[1]}"
+
+    def where_value(self, path):
+        v = self.values.get(path)
+        if v is None:
+            return path
+        return f"{v['span'][0]}:{v['span'][1]}"
